@@ -351,7 +351,7 @@ package sarama
 //@   refines packetDecoder.getVarintBytes
 //@   requires rd.valid()
 //@   ensures[value] err == nil && !isnil(b) ==> arr(b) == arr(rd.raw) && off(b) + len(b) == off(rd.raw) + rd.off && len(b) == unzigzag(uv_value(arr(rd.raw), off(rd.raw) + old(rd.off), old(rd.remaining())))
-//@   ensures[null] err == nil ==> (isnil(b) == (unzigzag(uv_value(arr(rd.raw), off(rd.raw) + old(rd.off), old(rd.remaining()))) == -1))
+//@   ensures[null @C10 @C09 @C03] err == nil ==> (isnil(b) == (unzigzag(uv_value(arr(rd.raw), off(rd.raw) + old(rd.off), old(rd.remaining()))) == -1))
 //@   ensures[valid] rd.valid() && len(rd.raw) == old(len(rd.raw))
 //@   modifies rd.off
 
@@ -1490,6 +1490,37 @@ package sarama
 //@   modifies nothing
 
 // ---------------------------------------------------------------------------------------------
+// (C15) tryRefreshMetadata: a response is applied as the complete picture of the cluster exactly when no topic list
+// restricted the request (whatever Metadata.Full says), and the request asks for the topics the caller named.
+//@ func (client *client) tryRefreshMetadata(topics, attemptsRemaining, deadline) props C15
+//@   returns err
+//@   callsite client.updateMetadata: requires[complete_picture_iff_all_topics_were_asked_for] $data == response && $allKnownMetaData == (len(topics) == 0)
+//@   nosafety
+//@ func (b *Broker) GetMetadata(request) trusted
+//@   returns rsp, err
+//@   modifies nothing
+
+// (C14) the SASL authenticate exchange on a fresh connection: the answer is accepted only if it carries the
+// correlation id of the request just written; any other id is a connection fault.
+//@ func (b *Broker) receiveSASLServerResponse(res, correlationID) props C14
+//@   returns n, err
+//@   per_return
+//@   ensures[answer_carries_the_id_of_the_request] err == nil ==> header.correlationID == correlationID
+//@   nosafety
+
+// (C07) a claim resumes where the group left off: consume starts the claim of its topic and partition at the position
+// the session's offset manager reports for it (NextOffset: the committed offset, or the initial position if none),
+// and at the configured initial position only when the partition is not managed.
+//@ ghost field consumerGroupSession.managedNext int64
+//@ ghost field consumerGroupSession.managed bool
+//@ func (s *consumerGroupSession) consume(topic, partition) props C07
+//@   requires !s.managed && s.parent != nil && s.parent.config != nil && s.parent.consumer != nil
+//@   callsite partitionOffsetManager.NextOffset: modifies s.managedNext, s.managed
+//@   callsite partitionOffsetManager.NextOffset: effect s.managed && s.managedNext == $result
+//@   callsite newConsumerGroupClaim: requires[claim_resumes_at_the_managed_position] $topic == topic && $partition == partition && $offset == ite(s.managed, s.managedNext, s.parent.config.Consumer.Offsets.Initial)
+//@   nosafety
+
+// ---------------------------------------------------------------------------------------------
 // consumer.go, where a partition consumer starts and what it asks for (C03, C11).
 // chooseStartingOffset: a consumer started at S begins exactly at S when S lies within the log, at the log's newest /
 // oldest position for the two symbolic values, and nowhere (an error) otherwise.
@@ -1519,6 +1550,10 @@ package sarama
 //@   callsite FetchRequest.AddBlock: requires[asks_from_the_consumers_own_position] $recv == request && $topic == child.topic && $partitionID == child.partition && $fetchOffset == child.offset && $maxBytes == child.fetchSize
 //@   callsite Broker.Fetch: requires[isolation_level_of_the_configuration @C11] $request == request && (verAtLeast(bc.consumer.conf.Version, V0_11_0_0) ==> request.Version >= 4 && request.Isolation == bc.consumer.conf.Consumer.IsolationLevel)
 //@   callsite Broker.Fetch: requires[to_the_broker_of_this_worker] $recv == bc.broker
+// the protocol version is chosen from the configuration before any block is added (a block is laid out for the
+// request version it is added under), and does not change afterwards
+//@   callsite FetchRequest.AddBlock: requires[version_chosen_before_blocks_are_added] request.Version == ite(verAtLeast(bc.consumer.conf.Version, V2_3_0_0), 11, ite(verAtLeast(bc.consumer.conf.Version, V2_1_0_0), 10, ite(verAtLeast(bc.consumer.conf.Version, V1_1_0_0), 7, ite(verAtLeast(bc.consumer.conf.Version, V0_11_0_0), 4, ite(verAtLeast(bc.consumer.conf.Version, V0_10_1_0), 3, ite(verAtLeast(bc.consumer.conf.Version, V0_10_0_0), 2, ite(verAtLeast(bc.consumer.conf.Version, V0_9_0_0), 1, 0)))))))
+//@   callsite Broker.Fetch: requires[version_of_the_configuration] request.Version == ite(verAtLeast(bc.consumer.conf.Version, V2_3_0_0), 11, ite(verAtLeast(bc.consumer.conf.Version, V2_1_0_0), 10, ite(verAtLeast(bc.consumer.conf.Version, V1_1_0_0), 7, ite(verAtLeast(bc.consumer.conf.Version, V0_11_0_0), 4, ite(verAtLeast(bc.consumer.conf.Version, V0_10_1_0), 3, ite(verAtLeast(bc.consumer.conf.Version, V0_10_0_0), 2, ite(verAtLeast(bc.consumer.conf.Version, V0_9_0_0), 1, 0)))))))
 //@   nosafety
 
 // ---------------------------------------------------------------------------------------------
@@ -2213,6 +2248,9 @@ package sarama
 //@   loop 0: invariant[header_so_far] version >= 4 && i <= ite(numTransact > 0, numTransact, 0) && old(pd.remaining()) - pd.remaining() == 2 + 8 + 8 + ite(version >= 5, 8, 0) + 4 + 16 * i
 //@   loop 1: invariant 0 <= pd.remaining() && pd.remaining() <= old(pd.remaining()) && recordsDecoder.remaining() >= 0
 //@   loop 1: decreases recordsDecoder.remaining()
+// (C03) a records entry without a single record (the partial trailing batch of a size-limited fetch) is kept only when
+// nothing precedes it: behind complete batches it would make the consumer step over the first record it cuts off
+//@   callsite append: requires[an_empty_trailing_entry_is_not_kept_behind_complete_ones @C03] n > 0 || len(b.RecordsSet) == 0
 // (C09) the records length is read after exactly the header the encoder writes for this version
 // (a null (-1) transaction array reads like an empty one and leaves b.AbortedTransactions alone: hence the two cases)
 //@   callsite packetDecoder.getInt32: requires[header_shape @C09] version < 11 ==> old(pd.remaining()) - pd.remaining() == fetchHeader(version, 0) || old(pd.remaining()) - pd.remaining() == fetchHeader(version, len(b.AbortedTransactions))
@@ -2788,12 +2826,21 @@ package sarama
 //@ ghost field consumerGroupSession.setups int
 //@ func newOffsetManagerFromClient(group, memberID, generation, client) trusted
 //@   returns om, err
-//@   ensures err == nil ==> om != nil
+//@   ensures err == nil ==> om != nil && om.poms != nil
 //@   modifies nothing
-//@ func (om *offsetManager) ManagePartition(topic, partition) trusted
+// (C06) ManagePartition never replaces a partition's manager: while one is registered - even a closed one whose last
+// mark has not been committed yet - a second request for the partition is refused and the registered one stays.
+//@ func (om *offsetManager) newPartitionOffsetManager(topic, partition) trusted
 //@   returns pom, err
 //@   ensures err == nil ==> pom != nil
 //@   modifies nothing
+//@ func (om *offsetManager) ManagePartition(topic, partition) props C06
+//@   returns pom, err
+//@   ensures[manager_returned] err == nil ==> pom != nil
+//@   ensures[a_registered_manager_is_never_replaced] old(haskey(om.poms, topic) && om.poms[topic] != nil && haskey(om.poms[topic], partition) && om.poms[topic][partition] != nil) ==> err != nil && om.poms[topic][partition] == old(om.poms[topic][partition])
+//@   ensures[registered_under_its_partition] err == nil ==> om.poms[topic] != nil && om.poms[topic][partition] != nil
+//@   nosafety
+//@   modifies maps(om.poms)
 //@ func (s *consumerGroupSession) release(withCleanup) trusted
 //@   returns err
 //@   modifies nothing
